@@ -291,6 +291,33 @@ impl Read for HardFaultReader<'_> {
     }
 }
 
+/// Like `HardFaultReader`, but the error is reported exactly once: the call
+/// that would deliver the byte at `limit` fails with `kind`, every later call
+/// succeeds again (a transient fault such as `WouldBlock` / `TimedOut` on a
+/// socket).  The library must still return that error (only `Interrupted` is
+/// retried by `read_exact`).
+struct OnceFaultReader<'a> {
+    data: &'a [u8],
+    pos: usize,
+    limit: usize,
+    kind: io::ErrorKind,
+    fired: bool,
+}
+
+impl Read for OnceFaultReader<'_> {
+    fn read(&mut self, buf: &mut [u8]) -> io::Result<usize> {
+        if !self.fired && self.pos >= self.limit {
+            self.fired = true;
+            return Err(io::Error::new(self.kind, "injected once"));
+        }
+        let end = if self.fired { self.data.len() } else { self.limit };
+        let n = buf.len().min(end - self.pos);
+        buf[..n].copy_from_slice(&self.data[self.pos..self.pos + n]);
+        self.pos += n;
+        Ok(n)
+    }
+}
+
 /// Run one `sched` case: load `path` through the reader described by `kind`.
 fn sched_load(path: &str, kind: &[String]) -> Result<AsepriteFile, AsepriteParseError> {
     let arg = |k: usize| -> u64 {
@@ -324,6 +351,13 @@ fn sched_load(path: &str, kind: &[String]) -> Result<AsepriteFile, AsepriteParse
             pos: 0,
             limit: (arg(1).min(data.len() as u64)) as usize,
             kind: iokind_from_code(arg(2) as u32),
+        }),
+        "once" => AsepriteFile::read(OnceFaultReader {
+            data: &data,
+            pos: 0,
+            limit: (arg(1).min(data.len() as u64)) as usize,
+            kind: iokind_from_code(arg(2) as u32),
+            fired: false,
         }),
         "cursor" => AsepriteFile::read(Cursor::new(data.clone())),
         "bufreader" => {
